@@ -36,6 +36,7 @@ inductive Draw where
   | mutant (v : List F)                 -- `DifferentialEvolutionOptimizer.mutation()`: the float mutant vector
   | parents (idx : List Nat)            -- `GeneticAlgorithmOptimizer._crossover`: indices of the selected parents
   | inits (l : List Pos)                -- the start-up list of an optimizer that is built DURING the run (Powell's inner climber)
+  | vec (v : List F)                    -- a float vector that is NOT a position: acquisition values, a Lipschitz bound
 deriving Repr, DecidableEq, Inhabited
 
 abbrev Tape := List Draw
